@@ -382,6 +382,9 @@ func translateOneDataBlob(logger log.Logger, match stringMatcher, visitor visito
 // indicating if invalid UTF8 was repaired and whether there was any error.
 func tryRepairInvalidUTF8InBlob(blob *common.DataBlob) ([]*history.HistoryEvent, bool, error) {
 	// If we encountered a utf-8 error, try to repair it.
+	if err := compat.CheckNestingDepth(blob.Data); err != nil {
+		return nil, false, err
+	}
 	encodingType122 := enums122.EncodingType(blob.EncodingType.Number())
 	events122, err := gogoSerializer.DeserializeEvents(&common122.DataBlob{
 		EncodingType: encodingType122,
